@@ -16,6 +16,9 @@ WIDTH = {1: 1, 2: 1, 3: 2, 4: 4, 5: 2, 6: 4, 7: 1}
 VALUE = {1: 0xA5, 2: 0, 3: 0xA5C3, 4: 0x65C3E1D2, 5: 0, 6: 0, 7: 0}
 # the fill values tried: the optimiser treats a zero fill differently from other values (a zeroing memset / store is the common idiom)
 VALUES = {1: [0xA5, 0], 2: [0], 3: [0xA5C3, 0], 4: [0x65C3E1D2, 0], 5: [0], 6: [0], 7: [0]}
+# further fill values for the cells whose parameters are run-time values (the same binary, another argument): values whose bytes /
+# halves repeat or do not (a byte-wise or half-wise fast path for "repeating patterns" must test every byte), 0xFF.., single set bytes
+MORE_VALUES = {1: [0xFF, 0x01, 0x80], 3: [0x5A5A, 0x00FF, 0xFF00, 0x0001], 4: [0x12341234, 0x5A5A5A5A, 0x00010001, 0x7F007F00, 0x000000FF, 0x7F000000]}
 STO = {"stack": 0, "heap": 1, "static": 2, "local": 3}
 HD = os.path.join(build.VERIF, "harness", "erase")
 
@@ -94,6 +97,9 @@ def run(prop, tier, seed, workdir):
             k2 = key + ((s["n"], s["off"], v) if s["constp"] else (0, 0, VALUE[s["fn"]]))
             cells[k2] = None
             runs.append((k2, s["n"], s["off"], v))
+        if not s["constp"] and s["level"] in ("O0", "O2") and s["link"] in ("static", "lto"):
+            for v in MORE_VALUES.get(s["fn"], []):
+                runs.append((key + (0, 0, VALUE[s["fn"]]), s["n"], s["off"], v))
 
     def mk(key):
         return key, build_client(b, root, *key)
@@ -128,6 +134,7 @@ def run(prop, tier, seed, workdir):
              "static, stack never leaving the optimiser's view} x {run-time, compile-time constant} parameters is enumerated by TLC (%d cases over n in %s, offsets %s), compiled into %d client binaries (single call site each; LTO "
              "cells with the library rebuilt with -flto at the same level, the others with the library as shipped at -O2) and every run's out-of-band observation (after the frame is popped / "
              "when the block reaches free / at program end) is judged by TraceErase.tla: the addressed bytes hold the fill value, the 16 bytes in front and behind the secret. "
+             "Fill values: the function's own and 0 in every cell; in the run-time cells at O0 / O2, static and gcc-LTO link, also values whose bytes or halves repeat or do not (0x12341234, 0x5A5A5A5A, 0x00010001, 0x00FF, 0xFF00, 0xFF ...). "
              "non-trivial = client binaries" % (levels, links, len(states), ns, offs, len(cells)),
         samples=[json.loads(events[i]) | {"obs": "..."} for i in (0, len(events) // 2, len(events) - 1)],
         exhaustive=False, checker_cmd="tlc Erase.tla (INVARIANT Safe; AlwaysErased must fail); tlc TraceErase.tla")
